@@ -323,9 +323,17 @@ impl MainEvent {
             }
         }
 
-        for chunks in pwb_chunks_map.into_values() {
+        for (key, chunks) in pwb_chunks_map {
             let packet = PwbPacket::try_from(chunks)?;
             let board_id = packet.board_id();
+            // The bank name was only compared against the chunk headers; the
+            // reassembled packet has to come from the same board.
+            if board_id != key.0 {
+                return Err(TryMainEventFromDataBanksError::PadwingBoardIdMismatch {
+                    expected: key.0,
+                    found: board_id,
+                });
+            }
             let after_id = packet.after_id();
             for &channel_id in packet.channels_sent() {
                 if let padwing::ChannelId::Pad(pad_channel_id) = channel_id {
